@@ -23,6 +23,7 @@ func concurrentScenarios(prefix string, n int, seed int64) []Scenario {
 			o.Freelist = "hashmap"
 		}
 		o.NoFreelistSync = i%3 == 2
+		o.NoStatistics = i%4 == 3
 		if i%4 < 2 {
 			o.InitialMmapSize = 1 << 25
 		}
